@@ -17,7 +17,7 @@ LEVEL = "exploration"
 TIMEOUT_S = 120.0
 RULE = ("one run = 1-4 simulated threads, each with a generated program (<= depth 4 nesting of parallel_config / "
         "parallel_backend blocks over the 8 settings, exits by fall-through or exception, Parallel(...) with random "
-        "explicit arguments, get_active_backend probes, threads spawned inside a block) x seeded interleaving at "
+        "explicit arguments, get_active_backend probes, contexts whose construction fails, threads spawned inside a block) x seeded interleaving at "
         "statement and line level; distinct = digest of (thread, event) sequence; non-trivial = at least two threads "
         "had overlapping context blocks or a block was left by an exception")
 REAL_CODE = ["joblib.parallel.parallel_config / parallel_backend", "_get_config_param", "_get_active_backend",
@@ -51,6 +51,10 @@ def gen_prog(rng, depth=0, allow_spawn=True):
             prog.append(["par", draw(rng, 0.3)])
         elif r < 0.5:
             prog.append(["probe"])
+        elif r < 0.53:
+            # a context whose construction fails (unknown backend name) while it also carries other settings: nothing of it
+            # may stay behind
+            prog.append(["badctx", {"pb": rng.random() < 0.3, "frame": draw(rng, 0.5)}])
         elif r < 0.57 and allow_spawn and depth > 0:
             prog.append(["spawn", gen_prog(rng, 3, False)])
         else:
@@ -189,6 +193,19 @@ def run_case(case):
                 exp = model_probe(stack); got = observe_probe()
                 if got != exp:
                     mism.append((tid, "probe", [dict(f) for f in stack], None, got, exp))
+            elif st[0] == "badctx":
+                fr = dict(st[1]["frame"], backend="no_such_backend")
+                if st[1]["pb"]:
+                    fr = {k: fr[k] for k in ("backend", "n_jobs") if k in fr}
+                try:
+                    (parallel_backend if st[1]["pb"] else parallel_config)(**fr)
+                    mism.append((tid, "bad_context_accepted", [dict(f) for f in stack], fr, "no exception", "ValueError"))
+                except Exception:  # noqa
+                    stats["failed_constructions"] = stats.get("failed_constructions", 0) + 1
+                for kind_, exp, got in (("probe", model_probe(stack), observe_probe()), ("par", model_par(stack, {}), observe_par({}))):
+                    if got != exp:
+                        mism.append((tid, "after_failed_construction", [dict(f) for f in stack], fr, got, exp))
+                        break
             elif st[0] == "spawn":
                 stats["spawned"] += 1
                 nthreads[0] += 1
@@ -260,7 +277,7 @@ def run_case(case):
         m = mism[0]
         verdict = V("config_mismatch", "thread %s %s: stack=%s arg=%s got=%s expected=%s" % m, kind=m[1])
     out = {"verdict": verdict, "digest": s.h.hexdigest()[:24], "shape": s.hs.hexdigest()[:16], "steps": s.steps,
-           "switches": s.switches, "sim_time": round(s.now, 3), "faults": {"block_left_by_exception": stats["raised"]} if stats["raised"] else {},
+           "switches": s.switches, "sim_time": round(s.now, 3), "faults": {k_: v_ for k_, v_ in {"block_left_by_exception": stats["raised"], "context_construction_failed": stats.get("failed_constructions", 0)}.items() if v_},
            "probes": {"overlapping_blocks_across_threads": stats["overlap"], "threads_spawned_inside_block": stats["spawned"]},
            "nontrivial": bool(stats["overlap"] or stats["raised"]),
            "extra": {"constructions": stats["pars"], "probes": stats["probes"], "blocks": stats["blocks"]},
